@@ -24,7 +24,9 @@ def run_C17(ctx, rep):
 
 
 def run_C19(ctx, rep):
+    agg_rules.check_L9(ctx, rep, ['c_rel_no_index'])      # concurrent inserts land in a slot that exists, whatever worker inserts
     lib_rules.check_L1(ctx, rep)
+    lib_rules.check_L1b(ctx, rep)
     lib_rules.classify_writers(ctx, rep)
     lib_rules.check_L4(ctx, rep)
     lib_rules.check_L6(ctx, rep)
@@ -42,12 +44,17 @@ def run_C20(ctx, rep):
     # the shard amount depends on the pool that was current at the first parallel construction: a sampled emptiness test makes
     # the result depend on it
     lib_rules.check_L13(ctx, rep)
+    # with one worker there is no race: an insertion that is not one critical section makes the result depend on the pool size
+    lib_rules.check_L1(ctx, rep)
+    lib_rules.check_L1b(ctx, rep)
+    lib_rules.check_L31(ctx, rep)
 
 
 def run_C10(ctx, rep):
     lib_rules.check_L13(ctx, rep)       # is_empty of every read view is exact (a rule is skipped when a body relation reports empty)
     byods_rules.check_L5(ctx, rep, 'eqrel_ternary')
     byods_rules.check_L15(ctx, rep)
+    byods_rules2.check_L33(ctx, rep)
     byods_rules.check_L16(ctx, rep, ['union_find'])
     byods_rules.check_L20(ctx, rep, ['union_find', 'eqrel_ind', 'eqrel_ternary', 'utils'])
     byods_rules.check_L23(ctx, rep, ['eqrel_ternary', 'eqrel_ind', 'ceqrel_ind'])
@@ -130,12 +137,14 @@ def run_C12(ctx, rep):
 def run_C05(ctx, rep):
     _lib_protocol(ctx, rep)
     lib_rules.check_L1(ctx, rep)
+    lib_rules.check_L1b(ctx, rep)
     lib_rules.check_L31(ctx, rep)
     gen_driver.run_gen(ctx, rep, ['G1G3', 'USES', 'G5', 'G14', 'G15'], floors={'G1': 300, 'G1.lat': 20, 'G1.uses': 800, 'G5': 250, 'G15': 15})
 
 
 def run_C02(ctx, rep):
     lib_rules.check_L1(ctx, rep)
+    lib_rules.check_L1b(ctx, rep)
     lib_rules.check_L31(ctx, rep)
     lib_rules.check_L13(ctx, rep)
     lib_rules.check_L8(ctx, rep)        # "never panic for every thread count": the shard amount is admissible under every pool size
